@@ -253,6 +253,13 @@ def run(ck, prog, ctx):
     ck.rule("SELFCMP", "every comparison inside the PartialEq / Ord / PartialOrd impls of the annotation record types and their ids takes one operand from `self` and one from `other`")
     from engines import check_comparison_impls
     check_comparison_impls(ck, "SELFCMP", prog, r"^src/annotations/", floor=4)
+    # ---- numbers put together byte by byte take consecutive bytes
+    from props.layout import check_byte_assembly
+    n_asm = 0
+    for ab_ in sorted(prog.production(), key=lambda z: z.id):
+        if ab_.kind in ("Fn", "AssocFn") and not ab_.test and re.search(r"^src/(parser/binary|annotations/|ontology/builder\.rs|lib\.rs)", ab_.file or "") and any(t_.callee.method in ("from_be_bytes", "from_le_bytes") for _, t_ in ab_.calls()):
+            n_asm += check_byte_assembly(ck, "LAYOUT", prog, ab_, ab_.short)
+    ck.floor("LAYOUT", "byte-by-byte assembled numbers", n_asm, 3, soft=True)
     hv = prog.one(r"^ontology::builder::Builder::<T>::hpo_version_from_bytes$")
     if mw is not None and hv is not None:
         comps = set()
